@@ -394,8 +394,14 @@ class Program:
                         continue
                     if (f.cls is None) != (r["cls"] is None):
                         continue
-                    if set(f.params) != set(r["params"]) or len(f.params) != len(r["params"]):
+                    if len(f.own_params) != len(r["params"]):
                         continue
+                    if set(f.own_params) != set(r["params"]):
+                        # renamed parameters: tolerated only position by position with identical annotations
+                        ra = r.get("annotations")
+                        fa = [ast.unparse(f.param_annotation(p_)) if f.param_annotation(p_) is not None else "" for p_ in f.own_params]
+                        if not ra or ra != fa or not all(fa[i] for i in range(len(fa)) if f.own_params[i] not in ("self", "cls")):
+                            continue
                     cands.append(nq)
                 for nq in cands:
                     f = new[nq]
@@ -403,6 +409,8 @@ class Program:
                     sc = 0.0
                     if ref_callers & closure_callers(nq, set(cands) - {nq}):
                         sc += 3.0
+                    elif set(f.own_params) != set(r["params"]):
+                        continue      # renamed parameters *and* no call-graph evidence: not a stand-in
                     sc += 2.0 * jac({self.renamed.get(c, c) for c in r["callees"]}, callees_of.get(nq, ()))
                     sc += jac(toks(mq), toks(nq))
                     if f.params == r["params"]:
@@ -420,8 +428,11 @@ class Program:
                 best_rival = max(rivals) if rivals else 0.0
                 if sc >= 1.0 and sc - best_rival >= 0.5:
                     self.renamed[mq] = nq
-                    if new[nq].own_params != ref[mq]["params"]:
-                        new[nq].ref_order = list(ref[mq]["params"])
+                    if set(new[nq].own_params) == set(ref[mq]["params"]):
+                        if new[nq].own_params != ref[mq]["params"]:
+                            new[nq].ref_order = list(ref[mq]["params"])
+                    else:
+                        new[nq].param_alias = dict(zip(ref[mq]["params"], new[nq].own_params))
                     accepted = True
                     break
             if not accepted:
